@@ -10,7 +10,8 @@ DIMS = {
     "policy": [("absent", "")] + [("str", p) for p in ("fifo", "lru", "lfu", "arc", "random", "tlru")],
     "ttl": [("absent", 0), ("int", 1), ("int", 2)],
     "maxmem": [("absent", 0, None), ("int", 200, "200"), ("strnum", 200, '"200"'), ("kb", 1, '"1KB"'),
-               ("lowerkb", 1, '"1kb"'), ("kb", 2, '"2KB"'), ("mb", 1, '"1MB"'), ("gb", 1, '"1GB"')],
+               ("lowerkb", 1, '"1kb"'), ("kb", 2, '"2KB"'), ("mb", 1, '"1MB"'), ("gb", 1, '"1GB"'),
+               ("gb", 4, '"4GB"'), ("mb", 4096, '"4096MB"')],
     "scope": [("absent", ""), ("str", "global"), ("str", "thread")],
     "weight": [("absent", "none", None), ("float", "0.3", "0.3"), ("float", "1.5", "1.5"), ("int", "3", "3")],
     "name": ["absent", "custom"],
@@ -83,10 +84,14 @@ def feasible(p):
     return True
 
 
+HUGE = 2 ** 31 - 1   # TLC has 32-bit integers: limits of 2 GiB and more are represented by this cap
+
+
 def mem_bytes(m):
     cls, n = m[0], m[1]
-    return {"absent": 0, "int": n, "strnum": n, "kb": n * 1024, "lowerkb": n * 1024, "mb": n * 1024 * 1024,
-            "gb": n * 1024 ** 3}[cls]
+    v = {"absent": 0, "int": n, "strnum": n, "kb": n * 1024, "lowerkb": n * 1024, "mb": n * 1024 * 1024,
+         "gb": n * 1024 ** 3}[cls]
+    return min(v, HUGE)
 
 
 def flavour(r):
